@@ -419,6 +419,7 @@ class Worker:
                 # When a task is cancelled on the worker it is not removed
                 # from the ready queue because it is much cheaper to just
                 # discard cancelled tasks as they come out.
+                self._discard_task(addr)
                 continue
 
             task = self._tasks[addr]
@@ -428,10 +429,16 @@ class Worker:
                 # then discard this one too. Each breadcrumb (bcb) is a
                 # task address (unique system-wide task id) of an ancestor
                 # task.
-                # TODO: do I need to manually remove addr from self._tasks?
+                self._discard_task(addr)
                 continue
 
             return task
+
+    def _discard_task(self, addr: RuntimeAddress) -> None:
+        """Forget a task that was cancelled before it could be started."""
+        task = self._tasks.pop(addr, None)
+        if task is not None:
+            task.cancel()
 
     def _try_step_next_ready_task(self) -> None:
         """Select a task to run, and advance it one step."""
